@@ -249,6 +249,12 @@ func (env *SpecEnv) evalIdent(name string) Val {
 		}
 		specFail("unknown ghost variable %s", name)
 	}
+	// parameters evaluated in the entry state
+	if env.cur != nil && env.cur == env.st.entry {
+		if v, ok := env.st.entryVars[name]; ok {
+			return v
+		}
+	}
 	// named local of the function
 	if env.fn != nil {
 		if a := env.st.eng.localByName(env.fn, name); a != nil {
@@ -506,7 +512,8 @@ func (env *SpecEnv) evalBin(x *SExpr) Val {
 			return mkBool(sel(b.Terms[0], a.Terms[0]))
 		}
 		if mt, ok := b.T.Underlying().(*types.Map); ok {
-			return mkBool(sel(env.st.mapDomIn(env.snap(), mt, b.Terms[0]), a.Terms[0]))
+			// a nil map has no keys
+			return mkBool(and(not(eq(b.Terms[0], "0")), sel(env.st.mapDomIn(env.snap(), mt, b.Terms[0]), a.Terms[0])))
 		}
 		specFail("'in' needs a set or map on the right, got %v", b.T)
 	}
@@ -673,11 +680,18 @@ func (env *SpecEnv) evalCall(x *SExpr) Val {
 			i, j, i, i, j, j, sv.Terms[0], sv.Terms[2], i, sv.Terms[2], j))
 	case "mapref":
 		return mkInt(t0(0))
+	case "charat":
+		return mkStr(app("str.at", t0(0), t0(1)))
+	case "explode":
+		v := arg(0)
+		return Val{T: types.NewSlice(tString), Terms: []string{app("rune_count", v.Terms[0]), "false", app("str_explode", v.Terms[0])}}
+	case "rune_count":
+		return mkInt(app("rune_count", t0(0)))
 	case "typetag":
 		return mkStr(app("iface_tag", t0(0)))
 	case "ifaceref":
 		// the pointer wrapped by an interface value, typed by the second argument (a type text)
-		t := env.resolveType(x.Args[1].String())
+		t := env.resolveType(x.Args[1].Name)
 		return Val{T: t, Terms: []string{app("iface_int", t0(0))}}
 	}
 	// user-defined spec function
